@@ -58,6 +58,13 @@ def patch_sync():
     dbmod.sleep = _nosleep
     _SPINS[0] = 0
     if symx.native():
+        # undo the gate-scheduler patches of an earlier phase: real worker threads
+        import aiorpcx
+        import sys as _sys
+        dbmod.run_in_thread = aiorpcx.run_in_thread
+        bp = _sys.modules.get('electrumx.server.block_processor')
+        if bp is not None:
+            bp.run_in_thread = aiorpcx.run_in_thread
         return
     import electrumx.server.block_processor as bpmod
     dbmod.run_in_thread = _inline
